@@ -61,10 +61,13 @@ def run(ctx):
         bdir = os.path.join(base, "build")
         os.makedirs(os.path.join(bdir, "tmp"))
         seen = {}
+        # a few steps, each attempted several times (a step re-run again and again), from different working
+        # directories: the operator's, the invocation directory itself (robsd -r .), its tmp directory
+        pairs = [(rng.choice(NAMES), rng.choice([1, 2, 9, 10, 99, 100, 123])) for _ in range(rng.randint(1, 4))]
+        cwd = rng.choice([None, None, bdir, bdir, os.path.join(bdir, "tmp")])
         for a in range(rng.randint(1, 14)):
-            name = rng.choice(NAMES)
-            step = rng.choice([1, 2, 9, 10, 99, 100, 123])
-            rc, out, err = sh.call('log_id -b "%s" -n "%s" -s %d' % (bdir, name, step))
+            name, step = rng.choice(pairs)
+            rc, out, err = sh.call('%slog_id -b "%s" -n "%s" -s %d' % ('cd "%s" && ' % cwd if cwd else "", bdir, name, step))
             got = out.decode().strip()
             files = []
             for dp, dn, fn in os.walk(bdir):
@@ -72,10 +75,11 @@ def run(ctx):
             reqs.append("logid %d %s %s" % (step, hexb(name.encode()), ",".join(hexb(f.encode()) for f in files) or "."))
             obs.append(hexb(got.encode()))
             kinds["log_id"] = kinds.get("log_id", 0) + 1
+            kinds["log_id-cwd-%s" % ("elsewhere" if cwd is None else "invocation" if cwd == bdir else "invocation/tmp")] = kinds.get("log_id-cwd-%s" % ("elsewhere" if cwd is None else "invocation" if cwd == bdir else "invocation/tmp"), 0) + 1
             if rc != 0 or not got or os.path.exists(os.path.join(bdir, got)) or "/" in got:
                 ctx.violation("log_id returned '%s' for attempt %d of step %d '%s': %s" % (got, seen.get((step, name), 0) + 1, step, name,
                                                                                              "the file exists already" if os.path.exists(os.path.join(bdir, got)) else "bad name"),
-                              dict(files=sorted(files)))
+                              dict(files=sorted(files), cwd=cwd or "(the check's)", cmd="bash -O lastpipe -c '. util.sh; %slog_id -b BUILD -n %s -s %d'" % ("cd CWD && " if cwd else "", name, step)))
                 break
             with open(os.path.join(bdir, got), "w") as f:
                 f.write("attempt\n")
@@ -120,7 +124,7 @@ def run(ctx):
     ctx.cov.update(dict(
         evaluations=len(reqs), distinct_nontrivial=len(distinct),
         rule="roots holding 0-15 invocations of today with gaps (oldest removed as cleaning does), more than nine per day, directories of other days, an attic, "
-             "a plain file named like an invocation; sequences of 1-14 attempts of steps with names over letters, digits, '.', '_', '-', '/' and ids 1..123; "
+             "a plain file named like an invocation; sequences of 1-14 attempts of 1-4 steps (so the same step is attempted many times), run from the check's directory, from the invocation directory and from its tmp directory, with names over letters, digits, '.', '_', '-', '/' and ids 1..123; "
              "non-trivial = distinct state with >= 2 invocations of today / a step attempted >= 2 times; util.sh build_id/log_id run under bash and compared with "
              "the model; freshness (the returned name does not exist) checked directly; 12-14 real canvas invocations in a row on one root with keep 1-3 (attic on/off): "
              "every invocation gets a directory name no earlier invocation of that root had, attic records stay single",
